@@ -51,6 +51,9 @@ Readings of the statement fixed here
     16, the *_high entries at 88/256/2**24, corners of the colour cubes only so that "nearest colour" is
     not in play); undefined names and None = terminal default; an AttrSpec object is drawn as its own
     fields say at any depth.  bright_is_bold is switched off (C17 covers the bold-for-bright reading).
+  * two AttrSpec objects that denote different colours or settings are different attributes however close their
+    packed representation is (default vs true-colour black vs palette index 0, bold as the only difference):
+    the NEAR table and the families E / F draw them over one another and next to one another.
   * HTML: "the canvas text" is the decoded text of the canvas rows; a DEC special-graphics run (only
     present in non-UTF-8 encodings) is compared literally (the statement says text, not glyphs).
     "Highlighted" = styled differently from the same canvas drawn without a cursor.
@@ -100,6 +103,8 @@ def _palette():
 
 
 def _canvas_attr(aid):
+    if aid in NEAR:
+        return AttrSpec(*NEAR[aid][0])  # a NEW object for every canvas: equality by value, never by identity
     return {
         0: None,
         1: "pm",
@@ -114,12 +119,44 @@ def _canvas_attr(aid):
     }[aid]
 
 
-N_ATTRS = 10
+N_ATTRS = 10  # the ids the random generators draw from
+
+# "Near-equal" AttrSpec objects (ids 10..): pairs of them denote DIFFERENT colours or settings although their
+# descriptions / packed numbers nearly coincide -- default vs colour number 0 of each kind (basic 'black', high 'h0',
+# true-colour '#000'), the same number 1 as a basic, a high and a true colour, bold as the only difference, the same
+# default/default declared at different depths (these DO look alike).  The row diff against screen_buf and the
+# attribute-switch test inside a row both rest on AttrSpec equality: family E below draws every ordered pair of
+# them as "same text redrawn with the other attribute" and as adjacent runs of one row.
+# id: ((foreground, background, colors) handed to AttrSpec, (fg, bg, flags) a terminal must show -- written by hand)
+NEAR = {
+    10: (("default", "default", 2**24), (DEFAULT, DEFAULT, ())),
+    11: (("#000", "default", 2**24), (RGB(0, 0, 0), DEFAULT, ())),
+    12: (("default", "#000", 2**24), (DEFAULT, RGB(0, 0, 0), ())),
+    13: (("#000", "#000", 2**24), (RGB(0, 0, 0), RGB(0, 0, 0), ())),
+    14: (("black", "default", 16), (IDX(0), DEFAULT, ())),
+    15: (("default", "black", 16), (DEFAULT, IDX(0), ())),
+    16: (("h0", "default", 256), (IDX(0), DEFAULT, ())),
+    17: (("default", "h0", 256), (DEFAULT, IDX(0), ())),
+    18: (("h0", "h0", 88), (IDX(0), IDX(0), ())),
+    19: (("default,bold", "default", 16), (DEFAULT, DEFAULT, ("bold",))),
+    20: (("#000,bold", "default", 2**24), (RGB(0, 0, 0), DEFAULT, ("bold",))),
+    21: (("black,bold", "default", 16), (IDX(0), DEFAULT, ("bold",))),
+    22: (("#000001", "#000001", 2**24), (RGB(0, 0, 1), RGB(0, 0, 1), ())),
+    23: (("dark red", "dark red", 16), (IDX(1), IDX(1), ())),
+    24: (("h1", "h1", 256), (IDX(1), IDX(1), ())),
+    25: (("default", "default", 88), (DEFAULT, DEFAULT, ())),
+    26: (("default,underline", "default", 2**24), (DEFAULT, DEFAULT, ("underline",))),
+    27: (("default", "default", 16), (DEFAULT, DEFAULT, ())),
+}
+NEAR_IDS = (0, *sorted(NEAR))
 
 
 def rendition(aid, depth):
     """(fg, bg, flags) the terminal must show for attribute `aid` on a `depth`-colour screen."""
     f = frozenset
+    if aid in NEAR:  # an AttrSpec object is drawn as its own fields say at any depth
+        fg, bg, flags = NEAR[aid][1]
+        return (fg, bg, f(flags))
     if aid in (0, 2):
         return (DEFAULT, DEFAULT, f())
     if aid == 1:
@@ -546,9 +583,14 @@ def cursors(cols, rows, how):
     return [None] + [[x, y] for y in range(rows) for x in range(cols)]
 
 
-def random_row(r, cols, enc, blank_p=0.15, trail_p=0.35):
+def _aid(r, aids):
+    """an attribute id: from the ten standard ones (aids None; the stream the families A-D were built on) or from `aids`"""
+    return r.randrange(N_ATTRS) if aids is None else r.choice(aids)
+
+
+def random_row(r, cols, enc, blank_p=0.15, trail_p=0.35, aids=None):
     if r.random() < blank_p:
-        return [[" ", r.choice([0, 0, 1, 4, 5, 2])] for _ in range(cols)]
+        return [[" ", r.choice([0, 0, 1, 4, 5, 2] if aids is None else aids)] for _ in range(cols)]
     pools = [(ASCII, 5), ([" "], 3), (LINE, 2)]
     if encodable("é", enc):
         pools.append((ACC, 1))
@@ -559,10 +601,10 @@ def random_row(r, cols, enc, blank_p=0.15, trail_p=0.35):
     weighted = [p for p, w in pools for _ in range(w)]
     trail = r.randint(1, cols) if r.random() < trail_p else 0
     row, used = [], 0
-    aid = r.randrange(N_ATTRS)
+    aid = _aid(r, aids)
     while used < cols - trail:
         if r.random() < 0.4:
-            aid = r.randrange(N_ATTRS)
+            aid = _aid(r, aids)
         ch = r.choice(r.choice(weighted))
         if used + ch_width(ch) > cols - trail:
             ch = r.choice(ASCII)
@@ -570,30 +612,30 @@ def random_row(r, cols, enc, blank_p=0.15, trail_p=0.35):
         used += ch_width(ch)
     if trail:
         if r.random() < 0.6:
-            aid = r.randrange(N_ATTRS)
+            aid = _aid(r, aids)
         row += [[" ", aid] for _ in range(cols - used)]
     return row
 
 
-def random_frame(r, size, enc, cursor_p=0.5):
+def random_frame(r, size, enc, cursor_p=0.5, aids=None):
     cols, rows = size
-    f = {"size": [cols, rows], "rows": [random_row(r, cols, enc) for _ in range(rows)], "cursor": None}
+    f = {"size": [cols, rows], "rows": [random_row(r, cols, enc, aids=aids) for _ in range(rows)], "cursor": None}
     if r.random() < cursor_p:
         f["cursor"] = [r.randrange(cols), r.randrange(rows)]
     return f
 
 
-def mutate_frame(r, frame, enc):
+def mutate_frame(r, frame, enc, aids=None):
     cols, rows = frame["size"]
     f = {"size": [cols, rows], "rows": [[list(c) for c in row] for row in frame["rows"]], "cursor": frame["cursor"]}
     what = r.randrange(5)
     if what == 0:  # cursor only
         f["cursor"] = None if (frame["cursor"] is not None and r.random() < 0.4) else [r.randrange(cols), r.randrange(rows)]
     elif what == 1:  # one row replaced
-        f["rows"][r.randrange(rows)] = random_row(r, cols, enc)
+        f["rows"][r.randrange(rows)] = random_row(r, cols, enc, aids=aids)
     elif what == 2:  # one cell's attribute
         row = f["rows"][r.randrange(rows)]
-        row[r.randrange(len(row))][1] = r.randrange(N_ATTRS)
+        row[r.randrange(len(row))][1] = _aid(r, aids)
     elif what == 3:  # one cell's text (same width)
         row = f["rows"][r.randrange(rows)]
         i = r.randrange(len(row))
@@ -605,7 +647,7 @@ def mutate_frame(r, frame, enc):
     return f
 
 
-def random_history(r, enc, max_size=(6, 3), max_draws=3):
+def random_history(r, enc, max_size=(6, 3), max_draws=3, aids=None):
     size = (r.randint(1, max_size[0]), r.randint(1, max_size[1]))
     ops = []
     frame = None
@@ -620,12 +662,12 @@ def random_history(r, enc, max_size=(6, 3), max_draws=3):
                 ops.append({"op": "resize", "size": list(size)})
                 frame = None
         if frame is not None and r.random() < 0.7:
-            frame = mutate_frame(r, frame, enc)
+            frame = mutate_frame(r, frame, enc, aids=aids)
         elif frame is not None and r.random() < 0.15:
             ops.append({"op": "draw", "frame": frame, "reuse": True})
             continue
         else:
-            frame = random_frame(r, size, enc)
+            frame = random_frame(r, size, enc, aids=aids)
         ops.append({"op": "draw", "frame": frame})
     return ops
 
@@ -695,6 +737,43 @@ def gen_histories(tier, seed):
             c2 = dict(f2, cursor=r.choice([None, [1, 1], [2, 0]]))
             mid = r.choice([[], [], [{"op": "clear"}], [{"op": "resize", "size": [3, 2]}]])
             yield "C-frame-pairs", cfg, [{"op": "draw", "frame": f1}, *mid, {"op": "draw", "frame": c2}]
+
+    # E. near-equal AttrSpec objects (NEAR): every ordered pair (p, q) of them, at every colour depth, as
+    #    "redrawn": the same text drawn with p, then with q (the row must not be skipped as unchanged)
+    #    "one-cell": a row drawn with p, then its middle cell alone changes to q
+    #    "adjacent": p and q on adjacent runs of both rows (bottom row: through the insert-mode trick), then swapped
+    def near_history(kind, p, q):
+        size = [3, 2]
+        if kind == "redrawn":
+            f1 = {"size": size, "rows": [[["a", p], ["b", p], [" ", p]], [["c", 0], ["d", 0], [" ", 0]]], "cursor": None}
+            f2 = {"size": size, "rows": [[["a", q], ["b", q], [" ", q]], [["c", 0], ["d", 0], [" ", 0]]], "cursor": None}
+        elif kind == "one-cell":
+            f1 = {"size": size, "rows": [[["a", p], ["b", p], ["c", p]], [["d", p], [" ", p], [" ", p]]], "cursor": None}
+            f2 = {"size": size, "rows": [[["a", p], ["b", q], ["c", p]], [["d", p], [" ", q], [" ", p]]], "cursor": None}
+        else:
+            f1 = {"size": size, "rows": [[["a", p], ["b", q], [" ", q]], [["c", q], ["d", p], ["e", q]]], "cursor": None}
+            f2 = {"size": size, "rows": [[["a", q], ["b", p], [" ", p]], [["c", p], ["d", q], ["e", p]]], "cursor": None}
+        return [{"op": "draw", "frame": f1}, {"op": "draw", "frame": f2}]
+
+    e_cfgs = [(d, b, "utf-8") for d in DEPTHS for b in (True, False)]
+    k = 0
+    for p in NEAR_IDS:
+        for q in NEAR_IDS:
+            if p == q:
+                continue
+            for kind in ("redrawn", "one-cell", "adjacent") if p < q else ("redrawn", "one-cell"):  # "adjacent" swaps p and q itself
+                for d_i, depth in enumerate(DEPTHS):
+                    k += 1
+                    for bce in ((True, False) if not quick else ((k + d_i) % 2 == 0,)):
+                        yield "E-near-equal-attributes", (depth, bce, "utf-8"), near_history(kind, p, q)
+                if not quick:
+                    yield "E-near-equal-attributes", (2**24, True, "iso8859-1"), near_history(kind, p, q)
+
+    # F. seeded random histories whose attributes all come from the near-equal set
+    rf = rng(seed + 2)
+    for i in range(1200 if quick else 12000):
+        cfg = e_cfgs[i % len(e_cfgs)]
+        yield "F-random-near-equal", cfg, random_history(rf, cfg[2], max_size=(4, 3), aids=list(NEAR_IDS))
 
     # D. seeded random histories up to 6x3, <= 3 draws, all configurations in turn
     n = 6000 if quick else 60000
@@ -923,7 +1002,10 @@ def run(tier="quick", seed=0):
     bound = (
         "histories of <= 3 draws on screens <= 6x3 interleaved with clear() and resize; text: ASCII (incl. DEC-range letters), "
         "blanks, accented, double-width, DEC line drawing, combining; 10 attributes (None, undefined name, 4 palette names, "
-        "4 AttrSpec); depths 1/16/88/256/2**24 x back_color_erase on/off x utf-8/iso8859-1/euc-jp"
+        "4 AttrSpec); depths 1/16/88/256/2**24 x back_color_erase on/off x utf-8/iso8859-1/euc-jp; "
+        f"{len(NEAR)} near-equal AttrSpec objects (default vs colour 0 / 1 as basic, high and true colour, fg and bg, one style as the only "
+        "difference, default at every declared depth): every ordered pair as redrawn text, as a one-cell change and as adjacent runs "
+        "on 3x2 at every depth, and in random histories <= 4x3"
     )
     paint = KCheck("C04/paint-every-cell", "after every draw the interpreted screen shows the text and attributes of the last canvas in every cell", False, bound)
     cursor = KCheck("C04/cursor", "cursor visible at the canvas cursor, hidden when the canvas has none, after every draw", False, bound)
